@@ -36,6 +36,10 @@ CLIENTS = [
     "from lib import Settings\nSettings.level = 9\nprint(Settings().dump(), Settings().load('p'))\n",
     "import lib\nr = lib.Release()\nprint(r.rest, r.low, r.high, r.span(), lib.make())\n",
     "import lib\nprint(lib.Color.RED, lib.Color.GREEN, lib.Color.blueish, lib.Point.__slots__, lib.ORIGIN)\n",
+    # imports under an alias, through a star import (the client uses a name the library defines), only to re-export
+    "from lib import helper as h, renderText as rt\nprint(h(1), rt(2))\n", "from lib import *\nprint(helper(1), renderText(2), maxVal)\n",
+    "from lib import unusedHelper, anotherVar\n__all__ = ['unusedHelper', 'anotherVar']\nprint('ok')\n",
+    "from lib import _\nprint(_('x'))\n", "from lib import join, J\nprint(join('a', 'b'), J.dumps(1))\n", "import lib\nprint(lib.make(3).stat())\n",
 ]
 
 
@@ -46,7 +50,9 @@ def client_summary(src):
     imported = sorted(tracing.get_imported_names(tree))
     loads = [n.id for n in ast.walk(tree) if isinstance(n, ast.Name)]
     attrs = [[n.value.id if isinstance(n.value, ast.Name) else None, n.attr] for n in ast.walk(tree) if isinstance(n, ast.Attribute)]
-    return imported, loads, attrs
+    from_names = [a.name for n in ast.walk(tree) if isinstance(n, ast.ImportFrom) for a in n.names if a.name != "*"]
+    star = any(a.name == "*" for n in ast.walk(tree) if isinstance(n, ast.ImportFrom) for a in n.names)
+    return imported, loads, attrs, from_names, star
 
 
 def usednames_suite(ctx):
@@ -58,10 +64,11 @@ def usednames_suite(ctx):
         reqs, metas = [], []
         for src in srcs:
             try:
-                imported, loads, attrs = client_summary(src)
+                imported, loads, attrs, from_names, star = client_summary(src)
             except SyntaxError:
                 continue
-            reqs.append({"suite": "preserve", "defs": [], "class_methods": [], "assigns": [], "preserve": [], "used": [], "ns": "", "imported": imported, "loads": loads, "attrs": attrs})
+            reqs.append({"suite": "preserve", "defs": [], "class_methods": [], "assigns": [], "preserve": [], "used": [], "ns": "", "imported": imported, "loads": loads, "attrs": attrs,
+                         "from_names": from_names, "star": star, "all_names": loads})
             metas.append(src)
         answers = ctx.driver.ask(reqs)
         for src, ans in zip(metas, answers):
@@ -156,7 +163,8 @@ def preserved_oracle(ctx):
         surf = sorted({n.split(".")[-1] for n in pc.surface(lib, deep=True)})
         cases.append((lib, surf))
         for _ in range(ctx.n(2, 8)):
-            cases.append((lib, r.sample(surf, r.randint(1, len(surf)))))
+            if surf:
+                cases.append((lib, r.sample(surf, r.randint(1, len(surf)))))
     for (_sha, src, _fam) in sweep.pick(sweep.generated_corpus2(), ctx, 20):
         try:
             surf = sorted({n.split(".")[-1] for n in pc.surface(src)})
@@ -180,7 +188,7 @@ def preserved_oracle(ctx):
 
 def cli_oracle(ctx):
     s = Suite("cli-preserve", kind="oracle")
-    pairs = [(0, 0), (0, 1), (0, 2), (1, 4), (1, 5), (2, 6), (4, 7), (5, 8), (3, 9), (0, 10), (5, 11), (8, 12), (7, 13), (6, 14), (11, 15)]
+    pairs = [(0, 0), (0, 1), (0, 2), (1, 4), (1, 5), (2, 6), (4, 7), (5, 8), (3, 9), (0, 10), (5, 11), (8, 12), (7, 13), (6, 14), (11, 15), (0, 16), (0, 17), (5, 18), (13, 19), (14, 20), (15, 21)]
     for li, ci in pairs:
         d = Path(tempfile.mkdtemp(prefix="c08c_"))
         try:
@@ -199,7 +207,7 @@ def cli_oracle(ctx):
                                         "what": "after `pyrefact lib.py --preserve client.py` the client no longer behaves the same"})
         finally:
             shutil.rmtree(d, ignore_errors=True)
-    s.note = "15 (library, client) pairs in a temp dir: client output before vs after the CLI run `python -m pyrefact lib.py --preserve client.py`"
+    s.note = "21 (library, client) pairs in a temp dir: client output before vs after the CLI run `python -m pyrefact lib.py --preserve client.py`"
     return s
 
 
